@@ -195,6 +195,9 @@ class DispErr(Exception):
 EXC = {"Exception": ProgErr, "ExcSubclass": ProgErrSub, "BaseExc": ProgBase}
 
 
+_UNSET = "unset"
+
+
 def _grey(modname, clsname):
     try:
         mod = __import__(modname, fromlist=[clsname])
@@ -276,9 +279,10 @@ class Run:
         for n in FAMILY:
             r = self.lookup(n, True)
             st[n] = r[1] if r[0] == "val" else r[0]
-        m = self.metrics_var.get(None) if self.metrics_var is not None else "n/a"
-        g = self.group_var.get(None) if self.group_var is not None else "n/a"
-        return {"state": st, "metrics": None if m is None else (m if m == "n/a" else id(m)), "group": None if g is None else (g if g == "n/a" else id(g))}
+        # "unset" and "set to None" are different states of a context variable (the library tells "no scope" by LookupError)
+        m = self.metrics_var.get(_UNSET) if self.metrics_var is not None else "n/a"
+        g = self.group_var.get(_UNSET) if self.group_var is not None else "n/a"
+        return {"state": st, "metrics": m if isinstance(m, str) else (None if m is None else id(m)), "group": g if isinstance(g, str) else (None if g is None else id(g))}
 
     # ------------------------------------------------------------------ interpreter
     async def ops(self, ops, path, owner, mscope=None):
@@ -364,7 +368,11 @@ class Run:
                 raise
 
         if op["via"] == "ctx":
-            t = ctx.spawn(child)
+            try:
+                t = ctx.spawn(child)
+            except BaseException as exc:
+                self.ev("spawn_raised", path, owner=owner, exc=exc)
+                raise
             self.owner_of[path] = owner
         else:
             t = self.loop.create_task(child())
